@@ -1162,8 +1162,24 @@ class Interp:
             if f.id == "tuple" and len(e.args) == 1:
                 v = self.eval(fi, e.args[0], env)
                 return v
-            if f.id in ("int", "float") and len(e.args) == 1:
+            if f.id == "float" and len(e.args) == 1:
                 return self.eval(fi, e.args[0], env)
+            if f.id == "int" and len(e.args) == 1:
+                v = self.eval(fi, e.args[0], env)
+                a0 = e.args[0]
+                integral = isinstance(v, IntParam) or (isinstance(a0, ast.BinOp) and isinstance(a0.op, ast.FloorDiv)) \
+                    or (isinstance(v, NumV) and self.as_lin(v) is not None and self.as_lin(v).is_const and self.as_lin(v).c.denominator == 1)  # type: ignore[union-attr]
+                if not integral and isinstance(a0, (ast.Name, ast.Attribute)):
+                    alts = self.r.expr_alts(fi, a0)
+                    integral = bool(alts) and all(k == "inst" and full == "builtins.int" for k, full in alts)
+                if not integral and isinstance(a0, ast.Name):
+                    # a local that was assigned a floor division (or divmod quotient)
+                    integral = any(isinstance(n, ast.Assign) and any(isinstance(t, ast.Name) and t.id == a0.id for t in n.targets)
+                                   and isinstance(n.value, ast.BinOp) and isinstance(n.value.op, ast.FloorDiv) for n in ast.walk(fi.node))
+                if integral or not isinstance(v, NumV):
+                    return v
+                # truncation is not the identity: an opaque head that equals nothing else
+                return NumV(Rat.atom(f"int[{v.rat!r}]"), v.ut)
             if f.id == "abs" and len(e.args) == 1:
                 v = self.eval(fi, e.args[0], env)
                 if isinstance(v, NumV):
